@@ -11,11 +11,27 @@ let int_of_z = function Z0 -> 0 | Zpos p -> int_of_pos p | Zneg p -> - (int_of_p
 let rec int_of_nat = function O -> 0 | S n -> 1 + int_of_nat n
 let bool_of_tok s = s <> "0"
 
+(* arbitrary precision decimal <-> N (values above OCaml's 63 bit ints: pointers of the whole address range) *)
+let n10 = n_of_int 10
+let n_of_decimal (s : string) : n =
+  let acc = ref N0 in
+  String.iter (fun c -> if c >= '0' && c <= '9' then acc := N.add (N.mul !acc n10) (n_of_int (Char.code c - 48))) s;
+  !acc
+let rec decimal_of_n (x : n) : string =
+  match x with
+  | N0 -> "0"
+  | _ ->
+      let buf = Buffer.create 24 in
+      let rec go x = match x with
+        | N0 -> ()
+        | _ -> let q = N.div x n10 in let r = N.modulo x n10 in go q; Buffer.add_char buf (Char.chr (48 + int_of_n r)) in
+      go x; Buffer.contents buf
+
 let ev_str = function
   | ERet z -> "r" ^ string_of_int (int_of_z z)
-  | EPtr n -> "p" ^ string_of_int (int_of_n n)
-  | EDtor n -> "d" ^ string_of_int (int_of_n n)
-  | EVisit n -> "v" ^ string_of_int (int_of_n n)
+  | EPtr n -> "p" ^ decimal_of_n n
+  | EDtor n -> "d" ^ decimal_of_n n
+  | EVisit n -> "v" ^ decimal_of_n n
   | EFree n -> "f" ^ string_of_int (int_of_n n)
   | EAlloc n -> "a" ^ string_of_int (int_of_n n)
 
